@@ -126,7 +126,7 @@ Qed.
 (* ---- one event preserves the invariant ---- *)
 Lemma step_ok : forall S e, net_ok S -> net_ok (fst (step S e)).
 Proof.
-  intros S e [Hnd Hall]. destruct e as [i j | i j | i j | i | i]; simpl.
+  intros S e [Hnd Hall]. destruct e as [i j | i j adv | i j | i j | i | i]; simpl.
   - (* Fetch *)
     destruct (getr S i) as [ri|] eqn:Gi; [|split; assumption].
     destruct (getr S j) as [rj|] eqn:Gj; [|split; assumption].
@@ -136,6 +136,27 @@ Proof.
     destruct (Hall rj Ij) as (Rj & _).
     pose proof (rib_update_spec i (rrib ri) j (advert (rrib rj)) Ri) as [U1 U2].
     destruct (rib_update i (rrib ri) j (advert (rrib rj))) as [rb d] eqn:Eu. simpl in U1, U2. simpl.
+    assert (Hin : In (self (mkRouter i rb (nbrs ri))) (map self S)).
+    { simpl. rewrite <- Si. apply in_map. exact Ii. }
+    split; [rewrite setr_keys; assumption|].
+    intros ro Hro. apply setr_in in Hro; [|exact Hnd].
+    destruct Hro as [-> | [Hro _]]; [|apply Hall; exact Hro].
+    apply memN_In in Mj.
+    assert (Hij : i <> j) by (intros ->; apply Ni; rewrite Si; exact Mj).
+    unfold router_ok. simpl. split; [exact U1|]. split; [|split].
+    + intros d0 h. simpl. rewrite U2. destruct (h =? j) eqn:Eh.
+      * intros _. left. assert (h = j) by lia. subst. exact Mj.
+      * intros Hlt. destruct (Hi d0 h Hlt) as [H | [H1 H2]]; [left; exact H|].
+        right. rewrite <- Si. auto.
+    + rewrite U2. destruct (i =? j) eqn:E; [lia|]. rewrite <- Si. exact Zi.
+    + rewrite <- Si. exact Ni.
+  - (* Deliver: any advertisement whatsoever *)
+    destruct (getr S i) as [ri|] eqn:Gi; [|split; assumption].
+    destruct (memN j (nbrs ri)) eqn:Mj; [|split; assumption].
+    destruct (getr_some _ _ _ Gi) as [Ii Si].
+    destruct (Hall ri Ii) as (Ri & Hi & Zi & Ni).
+    pose proof (rib_update_spec i (rrib ri) j adv Ri) as [U1 U2].
+    destruct (rib_update i (rrib ri) j adv) as [rb d] eqn:Eu. simpl in U1, U2. simpl.
     assert (Hin : In (self (mkRouter i rb (nbrs ri))) (map self S)).
     { simpl. rewrite <- Si. apply in_map. exact Ii. }
     split; [rewrite setr_keys; assumption|].
